@@ -1088,13 +1088,17 @@ func (sc *serverConn) handleFrame(strm *Stream, fr *FrameHeader) error {
 		data := fr.Body().(*Data).Data()
 		strm.recvBody += len(data)
 
+		// The frame has been received, whatever becomes of the stream, so the
+		// peer's view of the connection window has gone down by its length and
+		// has to be given back. Doing this after the size check left every
+		// octet of an oversized body charged to the connection for good.
+		sc.consumeRecvWindow(strm, fr, fr.Len())
+
 		if sc.maxRequestBodySize > 0 && strm.recvBody > sc.maxRequestBodySize {
 			return NewResetStreamError(EnhanceYourCalm, "request body is too large")
 		}
 
 		strm.ctx.Request.AppendBody(data)
-
-		sc.consumeRecvWindow(strm, fr, fr.Len())
 	case FrameResetStream:
 		if strm.State() == StreamStateIdle {
 			return NewGoAwayError(ProtocolError, "RST_STREAM on idle stream")
